@@ -83,8 +83,10 @@ func c08a(c *Ctx, r *Report, st *Staged) {
 				r.Fail(clause, "R10 SIBLING-DIFF", construct, "Builder/GoCodeTemplate.go ↔ Builder/GoObjectTemplate.go", fmt.Sprintf("function %s exists in only one of the two templates (global: %v, object: %v)", fn, gf != nil, of != nil))
 				continue
 			}
-			gt := printNode(g.Fset, gf.Body)
-			ot := normaliseObjectText(printNode(o.Fset, of.Body))
+			// canonical text: receiver members mapped to their global counterparts, locals renamed in order of
+			// appearance, comparisons oriented, tagless switches as if-chains (canon_text.go)
+			gt := canonBodyText(g.Fset, g.Info, gf, nil)
+			ot := canonBodyText(o.Fset, o.Info, of, map[string]string{"StackSym": "StateSymStack", "Stackpos": "StackPointer"})
 			if strings.Join(strings.Fields(gt), " ") == strings.Join(strings.Fields(ot), " ") {
 				r.OK(clause, "R10 SIBLING-DIFF", construct, "Builder/GoCodeTemplate.go ↔ Builder/GoObjectTemplate.go", fmt.Sprintf("bodies identical modulo the receiver mapping (%d bytes)", len(gt)))
 				continue
